@@ -35,7 +35,7 @@ def main():
     head = subprocess.run(["git", "-C", "/repo", "rev-parse", "HEAD"], stdout=subprocess.PIPE, text=True).stdout.strip()
     if not os.path.isdir(WT):
         sh(["git", "-C", "/repo", "worktree", "add", "-q", "--detach", WT, head])
-    sh(f"git checkout -q --detach {head} && git checkout -q -- . && git clean -fdq -e target", cwd=WT)
+    sh(f"git reset -q --hard && git checkout -q --detach {head} && git reset -q --hard && git clean -fdq -e target", cwd=WT)
     meta = {"id": mid, "breaks": props[0] if props else "?", "repo_head": head, "ran": []}
     # 1. patch alone: existing suite green
     rc, out = sh(["git", "apply", os.path.join(d, "patch.diff")], cwd=WT)
@@ -44,6 +44,7 @@ def main():
         rc, out = sh(["git", "apply", "--3way", os.path.join(d, "patch.diff")], cwd=WT)
         if rc != 0:
             meta["error"] = "patch does not apply on current HEAD: " + out[-400:]
+            sh("git reset -q --hard && git clean -fdq -e target", cwd=WT)
             return finish(d, mid, meta)
     p1, f1, failed1, cerr = tests(WT)
     meta["patch_only"] = {"passed": p1, "failed": f1, "compile_error": cerr}
@@ -78,7 +79,7 @@ def main():
     else:
         meta["error"] = "demo.diff does not apply: " + out[-300:]
         meta["confirmed"] = False
-    sh("git checkout -q -- . && git clean -fdq -e target", cwd=WT)
+    sh("git reset -q --hard && git clean -fdq -e target", cwd=WT)
     return finish(d, mid, meta)
 
 
